@@ -192,6 +192,7 @@ def glue_events(names: int, prefixes: int, datatypes: int, npfx: int, nnames: in
     if datatypes:
         for i in range(datatypes + 2):  # two more than the table: consecutive evictions
             evs.append(("lit", f"http://p0/n{i}"))
+    evs.append(("opt",))  # the writer repeats its (identical) options row mid-stream
     return evs
 
 
@@ -218,6 +219,15 @@ def step2(st: Glue, ev) -> list[str]:
             got = st.dec.decode_iri(msg)
             if got._iri != ev[1]:
                 fails.append(f"IRI {ev[1]!r} decodes to {got._iri!r}")
+        elif ev[0] == "opt":
+            from pyjelly.options import StreamParameters, StreamTypes  # noqa: PLC0415
+            from pyjelly.serialize.encode import encode_options  # noqa: PLC0415
+
+            row = encode_options(st.enc.lookup_preset if hasattr(st.enc, "lookup_preset")
+                                 else st.dec.options.lookup_preset,
+                                 StreamTypes(physical_type=jelly.PHYSICAL_STREAM_TYPE_TRIPLES),
+                                 StreamParameters())
+            st.dec.decode_row(row.options)  # tables and cursors of both sides must survive it
         elif ev[0] == "ns":
             from pyjelly.serialize.encode import encode_namespace_declaration  # noqa: PLC0415
 
@@ -247,6 +257,11 @@ def step2(st: Glue, ev) -> list[str]:
         r = getattr(st.dec, which).data
         if len(w) > size or sum(1 for v in r if v is not None) > size:
             fails.append(f"{which}: live entries exceed {size}")
+        for key, idx in w.items():
+            if not 1 <= idx <= size or r[idx - 1] != key:
+                fails.append(f"{which}: mirror broken after {ev}: writer {key!r}->{idx}, reader "
+                             f"slot holds {r[idx - 1] if 1 <= idx <= size else None!r}")
+                break
     return fails
 
 
@@ -337,8 +352,62 @@ def step1_light(st: Pair, k: str) -> list[str]:
     return []
 
 
+# ------------------------------------------------------------------ layer 4
+def declared_case(rule: str, n: int):
+    """(sequence, preset): n+2 distinct keys of one table of declared size n, then the first
+    three again, written by the real stream classes."""
+    from mc.terms import I, L  # noqa: PLC0415
+
+    idx = list(range(n + 2)) + [0, 1, 2]
+    if rule == "name":
+        seq = [(I(f"http://p/n{i}"), I("http://p/p"), L("x")) for i in idx]
+        preset = (n, 4, 0)
+    elif rule == "prefix":
+        seq = [(I(f"http://p{i}/n"), I("http://p0/n"), L("x")) for i in idx]
+        preset = (8, n, 0)
+    else:
+        seq = [(I("http://p/s"), I("http://p/p"), L("x", None, f"http://d/{i}")) for i in idx]
+        preset = (8, 4, n)
+    return seq, preset
+
+
+def run_declared(case: dict) -> list[str]:
+    from mc import drivers as DR  # noqa: PLC0415
+    from mc import jspec  # noqa: PLC0415
+    from mc import terms as T  # noqa: PLC0415
+
+    seq, preset = declared_case(case["rule"], case["n"])
+    try:
+        data = DR.g_write(seq, "triple", DR.make_options("triple", preset, 250, True))
+    except Exception:  # noqa: BLE001
+        return []  # refusing a table size is not a violation
+    try:
+        _, per = jspec.decode_bytes(data)
+    except jspec.SpecViolation as e:
+        return [f"{case['rule']} table declared by the writer's own options row is violated by "
+                f"its own rows: {e}"]
+    got = [T.norm_st(x) for x in jspec.statements(per)]
+    if got != T.norm_seq(seq):
+        bad = next(i for i, (a, b) in enumerate(zip(got, T.norm_seq(seq))) if a != b)
+        return [f"statement {bad} resolves to {got[bad]} on a reader, writer meant {seq[bad]}"]
+    return []
+
+
+def shard4(job) -> dict:
+    rule, n = job
+    acc = pool.Acc()
+    case = {"layer": 4, "rule": rule, "n": n}
+    acc.evals = n + 5
+    for msg in run_declared(case):
+        acc.violation({"layer": 4, "rule": rule}, f"table size {n}: {msg}", case)
+    acc.extra = {"layer": 4, "rule": rule, "n": n, "states": 0, "transitions": n + 5,
+                 "closed": False, "max_depth": 0, "depth_complete": 0}
+    return acc.out()
+
+
 def _dispatch(job) -> dict:
-    return {"l1": shard1, "orbit": shard_orbit, "l2": shard2, "l3": shard3}[job[0]](job[1])
+    return {"l1": shard1, "orbit": shard_orbit, "l2": shard2, "l3": shard3,
+            "l4": shard4}[job[0]](job[1])
 
 
 # ---------------------------------------------------------------------- run
@@ -370,13 +439,18 @@ def run(ctx) -> None:
     for rule in RULES:
         for n in big:
             jobs.append(("l3", (rule, n)))
+    for rule in RULES:
+        for n in (8, 127, 128, 4095, 4096, 4097, 5000) if ctx.quick else \
+                (8, 9, 127, 128, 129, 1000, 4095, 4096, 4097, 4098, 5000, 8192, 16384, 20000):
+            if not (rule == "name" and n < 8):
+                jobs.append(("l4", (rule, n)))
     # biggest first so the pool stays busy
     def weight(j):
         if j[0] == "l1":
             return (8.5 if j[1][0] == "prefix" else 7) ** j[1][1]
         if j[0] == "l2":
             return min(j[1][5], 60000) * 30
-        if j[0] == "l3":
+        if j[0] in ("l3", "l4"):
             return j[1][1] * 40
         return 7 ** (j[1][1] + 2)
     jobs.sort(key=weight, reverse=True)
@@ -398,7 +472,8 @@ def run(ctx) -> None:
         samples=merged["samples"],
         exhaustive=all(t["closed"] for t in tables if t["layer"] == 1),
         large_table_sizes_swept=sorted({t["n"] for t in tables if t["layer"] == 3}),
-        searches=sorted([t for t in tables if t["layer"] != 3], key=lambda t: (t["layer"], str(t.get("rule")), t.get("n", 0),
+        declared_sizes_checked_on_streams=sorted({t["n"] for t in tables if t["layer"] == 4}),
+        searches=sorted([t for t in tables if t["layer"] not in (3, 4)], key=lambda t: (t["layer"], str(t.get("rule")), t.get("n", 0),
                                                t.get("sizes", []))),
         symmetry_validation=sorted(orbits, key=lambda o: (o["rule"], o["n"])),
         rule=(
@@ -408,7 +483,10 @@ def run(ctx) -> None:
             "traces_validated_against_impl == transitions; closed=true means fixpoint reached "
             "(holds for histories of any length); layer 3: for large table sizes (varint and "
             "4096-limit boundaries) five deterministic access-pattern families over n+2 keys with the "
-            "same per-step oracle (linear histories, not a state-space closure)"
+            "same per-step oracle (linear histories, not a state-space closure); layer 4: whole "
+            "streams from the real stream classes with n+2 distinct keys for declared sizes up to "
+            "and beyond the 4096 limit, decoded by the reference decoder against the writer's own "
+            "options row (ids within the declared size, every reference resolves)"
         ),
     )
     ctx.assumptions += [
@@ -419,6 +497,8 @@ def run(ctx) -> None:
 
 
 def replay(case: dict) -> list:
+    if case["layer"] == 4:
+        return run_declared(case)
     if case["layer"] == 3:
         hist = dict(patterns(case["n"]))[case["pattern"]]
         if case["rule"] == "prefix":
